@@ -428,6 +428,10 @@ def verify_contract(c: Contract, *, only_case=None):
             e.sym_rename = None
             if not invoke_and_check(e, case, ""):
                 return
+            if e.div_assume:
+                # facts were ASSUMED along this path (non-zero denominators): they must not have made it contradictory --
+                # an identically-zero denominator would otherwise prove every post-condition vacuously
+                e.satisfiable("facts assumed along the path (non-zero denominators) are consistent (vacuity guard, end of path)", lenient=True)
             wr = frame.written()
             if wr:
                 # HISTORY: the call wrote module-level state (a cache).  A contract is about every call, not only the first
